@@ -555,6 +555,11 @@ def ew1(op):
     return f
 
 
+UNINIT = D((1 << 4096) - 1, hash("uninitialised memory"), "uninit", ())
+"""what a ufunc leaves where its `where=` mask is false and no `out=` buffer was given: whatever the allocator handed out - a value that
+depends on the history of the process, i.e. (for the dependence rules) on every candle"""
+
+
 def ew2(op):
     def f(it, args, kw):
         a, b = args[0], args[1]
@@ -562,7 +567,17 @@ def ew2(op):
             a = to_na(a)
         if isinstance(b, (list, tuple)):
             b = to_na(b)
-        return broadcast(op, a, b)
+        r = broadcast(op, a, b)
+        w = kw.get("where")
+        if w is None or w is True:
+            return r
+        out = kw.get("out")
+        if out is None:
+            # np.divide(a, b, where=mask) without out=: the masked-out elements are never written
+            filler = map1(lambda x: UNINIT, r) if isinstance(r, NA) else UNINIT
+        else:
+            filler = out
+        return np_where(it, [w, r, filler], {})
     return f
 
 
